@@ -5,6 +5,6 @@ src=$1; shift
 s=$(mktemp -d /tmp/cjtrydir_XXXXXX)
 cp -a /verif/coq $s/coq; cp -a /verif/ocaml $s/ocaml
 for p in "$@"; do
-  cd /verif && VERIF_REPO=$src VERIF_COQ_DIR=$s/coq VERIF_OCAML_DIR=$s/ocaml VERIF_EVIDENCE_DIR=$s/evidence python3 tools/check.py $p --tier quick 2>&1 | grep -v conda | tail -3; echo "$p exit=$?"
+  cd /verif && VERIF_REPO=$src VERIF_COQ_DIR=$s/coq VERIF_OCAML_DIR=$s/ocaml VERIF_EVIDENCE_DIR=$s/evidence VERIF_REPLAY_DIR=$s/replays python3 tools/check.py $p --tier quick 2>&1 | grep -v conda | tail -3; echo "$p exit=$?"
 done
 rm -rf $s
